@@ -207,14 +207,12 @@ def sym_batch_max(c, n, b, inf):
     rec(c, "seed", seed)
     xs0 = list(arrays.raw(a))
     snapshot = a.copy()
-    anyinf = b_or(*[boolexpr(core.s_isinf(x)) for x in xs0])
     try:
         idx, bu = sel.simple_batch(a, random_state=seed, batch_size=b, return_utilities=True)
     except ValueError as e:
-        # documented: infinite utilities are rejected by the validation
-        c.prove(anyinf, "valueerror_only_for_inf", info=str(e))
+        # infinities are ordinary utilities for the arg-max selection (the property's quantifier names them)
+        c.prove(False, "accepts_every_utility_array", info=str(e))
         return
-    c.prove(b_not(anyinf), "inf_rejected")
     c.prove(isinstance(idx, np.ndarray) and idx.ndim == 1, "indices_1d")
     idx = [int(i) for i in idx]
     _batch_laws_sym(c, xs0, idx, bu, b, n)
@@ -222,6 +220,7 @@ def sym_batch_max(c, n, b, inf):
     # stubbed check_array returns the same object as sklearn does, so this is the real aliasing
     same = b_and(*[b_or(b_and(boolexpr(core.s_isnan(p)), boolexpr(core.s_isnan(q))), boolexpr(s_eq(p, q)))
                    for p, q in zip(arrays.raw(a), arrays.raw(snapshot))])
+    c.prove(same, "caller_array_unchanged")
     c.witness(b_and(*[boolexpr(s_eq(xs0[0], x)) for x in xs0[1:]]) if n > 1 else True, "all_tied")
     c.witness(b_and(*[boolexpr(core.s_isnan(x)) for x in xs0]), "all_nan")
     c.notes.append("input-aliasing: simple_batch writes NaN into its argument when it is already a float ndarray "
@@ -278,16 +277,15 @@ def replay_batch_max(inputs, label, n, b, inf):
     u = np.array(inputs["utilities"], dtype=float)
     seeds = [int(inputs.get("seed", 0)) % (2 ** 32)] + list(range(100))
     for s in seeds:
+        arg = u.copy()
         try:
-            idx, bu = sel.simple_batch(u.copy(), random_state=s, batch_size=b, return_utilities=True)
+            idx, bu = sel.simple_batch(arg, random_state=s, batch_size=b, return_utilities=True)
         except ValueError as e:
-            if label == "valueerror_only_for_inf" and not np.any(np.isinf(u)):
+            if label == "accepts_every_utility_array":
                 return True, f"utilities={u.tolist()} b={b}: ValueError {e}"
-            if label == "inf_rejected":
-                return False, "rejected"
             continue
-        if label == "inf_rejected" and np.any(np.isinf(u)):
-            return True, f"utilities={u.tolist()} accepted"
+        if label == "caller_array_unchanged" and not np.array_equal(arg, u, equal_nan=True):
+            return True, f"utilities={u.tolist()} b={b}: the caller's array is {arg.tolist()} after the call"
         bad = _batch_laws_conc(u, idx, bu, b)
         if label in bad:
             return True, f"utilities={u.tolist()} b={b} seed={s} -> idx={np.asarray(idx).tolist()} bu={np.asarray(bu).tolist()}"
@@ -424,6 +422,98 @@ def sym_batch_prop(c, n, b):
     c.witness(boolexpr(s_eq(npos, 1)), "single_positive")
 
 
+def sym_batch_prop_2d(c, shape, b):
+    """proportional mode on a 2-D utility array (the documented N-D input)"""
+    sel = _sel()
+    n = shape[0] * shape[1]
+    a = farr(c, "u", n, nan=True, inf=False, shape=shape)
+    rec(c, "utilities", a)
+    flat0 = list(arrays.raw(a).reshape(-1))
+    isn = [boolexpr(core.s_isnan(x)) for x in flat0]
+    for x, xn in zip(flat0, isn):
+        c.assume(b_or(xn, boolexpr(s_le(0, x))))
+    nn = 0
+    npos = 0
+    for x, xn in zip(flat0, isn):
+        nn = nn + mkbool(b_not(xn))
+        npos = npos + mkbool(b_and(b_not(xn), boolexpr(s_lt(0, x))))
+    want = s_ite(s_lt(nn, b), nn, b)
+    try:
+        idx, bu = sel.simple_batch(a, random_state=11, batch_size=b, return_utilities=True, method="proportional")
+    except ValueError as e:
+        c.prove(s_lt(npos, want), "valueerror_only_without_enough_mass", info=str(e))
+        return
+    ok = isinstance(idx, np.ndarray) and idx.ndim == 2 and idx.shape[1] == 2
+    c.prove(ok, "indices_2col")
+    if not ok:
+        return
+    k = len(idx)
+    c.prove(s_eq(k, want), "length")
+    pos = [int(r[0]) * shape[1] + int(r[1]) for r in idx]
+    c.prove(len(set(pos)) == k, "distinct")
+    for p in pos:
+        c.prove(b_not(isn[p]), "never_nan")
+        c.prove(s_lt(0, flat0[p]), "never_zero_weight")
+    c.prove(tuple(bu.shape) == (k,) + tuple(shape), "utilities_shape")
+    if tuple(bu.shape) != (k,) + tuple(shape):
+        return
+    rb = arrays.raw(bu)
+    for t in range(k):
+        row = list(rb[t].reshape(-1))
+        for p in range(n):
+            vn = boolexpr(core.s_isnan(row[p]))
+            if p in pos[:t]:
+                c.prove(vn, "row_masks_earlier_picks")
+            else:
+                c.prove(b_or(b_and(vn, isn[p]), boolexpr(s_eq(row[p], flat0[p]))), "row_keeps_values")
+    c.witness(k >= 2, "batch_of_two")
+
+
+def replay_batch_prop_2d(inputs, label, shape, b):
+    sel = _sel()
+    u = np.array(inputs["utilities"], dtype=float).reshape(shape)
+    nn = int(np.sum(~np.isnan(u)))
+    npos = int(np.sum(u > 0))
+    for s in range(100):
+        try:
+            idx, bu = sel.simple_batch(u.copy(), random_state=s, batch_size=b, return_utilities=True, method="proportional")
+        except Exception as e:
+            # (an exception the symbolic run met under another type - the facade's choice vs numpy's - is the same event)
+            if (label == "valueerror_only_without_enough_mass" or label.startswith("unexpected_exception")) and npos >= min(b, nn):
+                return True, f"utilities={u.tolist()} b={b}: {type(e).__name__}: {e}"
+            continue
+        idx = np.asarray(idx)
+        if idx.ndim != 2 or idx.shape[1] != 2:
+            return label == "indices_2col", f"idx={idx.tolist()}"
+        bad = set()
+        k = len(idx)
+        if k != min(b, nn):
+            bad.add("length")
+        pos = [int(r[0]) * shape[1] + int(r[1]) for r in idx]
+        if len(set(pos)) != k:
+            bad.add("distinct")
+        flat = u.reshape(-1)
+        if any(np.isnan(flat[p]) for p in pos):
+            bad.add("never_nan")
+        if any(not flat[p] > 0 for p in pos):
+            bad.add("never_zero_weight")
+        bu = np.asarray(bu)
+        if bu.shape != (k,) + tuple(shape):
+            bad.add("utilities_shape")
+        else:
+            for t in range(k):
+                row = bu[t].reshape(-1)
+                for p in range(len(flat)):
+                    if p in pos[:t]:
+                        if not np.isnan(row[p]):
+                            bad.add("row_masks_earlier_picks")
+                    elif not ((np.isnan(row[p]) and np.isnan(flat[p])) or row[p] == flat[p]):
+                        bad.add("row_keeps_values")
+        if label in bad:
+            return True, f"utilities={u.tolist()} b={b} seed={s} -> idx={idx.tolist()}"
+    return False, "not reproduced"
+
+
 def replay_batch_prop(inputs, label, n, b):
     sel = _sel()
     u = np.array(inputs["utilities"], dtype=float)
@@ -514,9 +604,12 @@ HARNESSES = [
     Harness("simple_batch_max_2d", sym_batch_max_2d, replay_batch_max_2d, _cfg_batch2d, UNITS),
     Harness("simple_batch_proportional", sym_batch_prop, replay_batch_prop, _cfg_prop, UNITS,
             required_witnesses=("single_positive",)),
+    Harness("simple_batch_proportional_2d", sym_batch_prop_2d, replay_batch_prop_2d,
+            lambda tier: [dict(shape=(2, 2), b=b) for b in ((1, 2) if tier == "quick" else (1, 2, 3))], UNITS,
+            required_witnesses=("batch_of_two",)),
 ]
 
-BOUNDS = dict(quick="1-D length <= 4 (inf allowed for <= 3), 2-D 2x2, batch <= 3 (incl. batch > #candidates)",
+BOUNDS = dict(quick="1-D length <= 4 (inf allowed for <= 3), 2-D 2x2 (max and proportional), batch <= 3 (incl. batch > #candidates)",
               thorough="1-D length <= 6, 2-D up to 2x3, batch <= 4",
               outside="arrays longer than the bound, ndim > 2, signed zeros, draws equal to exactly 0.0")
 ASSUMPTIONS = [
